@@ -391,6 +391,8 @@ def attr_model(I, obj, name):
         return file_method(I, obj, name)
     if isinstance(obj, StatResult):
         return getattr(obj, name)
+    if isinstance(obj, (SStr, bytes, str)) and name == "__hash__":
+        return ModelFn_("str.__hash__", lambda I_, a, k: hash_of(I, obj))
     if isinstance(obj, (SStr,)) or (isinstance(obj, (bytes, str)) and name in _STR_METHODS):
         return str_method(I, obj, name)
     if isinstance(obj, SBytes):
@@ -858,31 +860,35 @@ def m_all(I, a, k):
     return True
 
 
-def m_hash(I, a, k):
-    v = a[0]
+_HS = z3.Function("py_hash_str", z3.StringSort(), IntS)
+_HT = {}
+
+
+def hash_of(I, v):
+    """python hash() as a z3 Int: uninterpreted on strings / tuples (equal values => equal hashes by congruence)."""
     if isinstance(v, SObj):
         f = I.class_attr(v.cls, "__hash__")
         if isinstance(f, types.FunctionType):
-            return I.call_value(I.bind(f, v), [], {})
-        return HashVal(("id", v.name))
-    return hash_term(I, v)
-
-
-class HashVal(object):
-    """abstract hash: structural term; equal terms <=> provably equal hashes."""
-
-    def __init__(self, key):
-        self.key = key
-
-
-def hash_term(I, v):
-    if isinstance(v, tuple):
-        return HashVal(("tuple",) + tuple(hash_term(I, x).key if not isinstance(x, type) else ("cls", x) for x in v))
+            return to_z3_int(I.call_value(I.bind(f, v), [], {}))
+        return z3.Int("id_hash!" + v.name)
+    if isinstance(v, (SStr, bytes, str)):
+        return _HS(as_sstr(v).term)
+    if is_intlike(v):
+        return to_z3_int(v)
     if isinstance(v, type):
-        return HashVal(("cls", v))
-    if isinstance(v, HashVal):
-        return v
-    return HashVal(("val", v))
+        return z3.Int("class_hash!" + v.__module__ + "." + v.__qualname__)
+    if v is None:
+        return z3.Int("none_hash")
+    if isinstance(v, tuple):
+        n = len(v)
+        if n not in _HT:
+            _HT[n] = z3.Function("py_hash_tuple%d" % n, *([IntS] * (n + 1)))
+        return _HT[n](*[hash_of(I, x) for x in v])
+    raise Undecided("hash of %r" % (v,))
+
+
+def m_hash(I, a, k):
+    return hash_of(I, a[0])
 
 
 def m_getattr(I, a, k):
